@@ -64,10 +64,15 @@ def run(c):
     return c.finish(
         rule="controlled mode: the REAL queue (spool files, time wheel, dispatch goroutines, Queue.Close), compiled from timewheel.go/queue.go with a scheduling point "
         "before every synchronisation statement, is driven step by step along random schedules (1-4 producers via Commit or restart-style Add, 0-3 in-flight attempts, "
-        "retries, semaphore capacity 1-3, zero or one shutdown at a random position, 12% deliberately disabled choices) and the resulting state "
-        "(enabledness of every choice, program counters, wheel content, dispatch log with times, spool, counters) is compared with the Lean model run on the same schedule; "
-        "every scenario is then drained and the property is evaluated on the real execution (monitor). free mode: real scheduler and clock, seeded yields and at most 2 long delays "
-        "at the same points, then a restart on the same spool (monitor only; -race in the thorough tier). distinct = distinct schedules",
+        "retries, temporary and permanent errors of the next hop at every stage of the dialogue, dispatched entries whose spool entry cannot be opened at that moment "
+        "(meta-data missing / undecodable, header undecodable; restored afterwards), semaphore capacity 1-3, zero or one shutdown at a random position, a lazily scheduled "
+        "tick goroutine in a third of the scenarios, 12% deliberately disabled choices). What a parked goroutine can do is decided from the kind and operand of the "
+        "statement it is parked at (resolved by reflection against the real wheel/queue: any slot collection, helper methods with their own locks, buffered channels), "
+        "so refactored code is explored too. The resulting state (enabledness of every choice, program counters, wheel content as a multiset, dispatch log with times, spool, "
+        "real WaitGroup counter, semaphore) is compared with the Lean model run on the same schedule; every scenario is then drained and the property is evaluated on the real "
+        "execution (monitor: per-entry exactly-once accounting, timely timer, shutdown, WaitGroup/semaphore leaks, spool). free mode: real scheduler and clock, seeded yields and "
+        "at most 2 long delays at the same points, one message's meta-data out of reach for a while, then a restart on the same spool (monitor only; -race in the thorough tier). "
+        "distinct = distinct schedules",
         explanation="theorems over all schedules of the small-step model; model tied to the code by the regenerated synchronisation skeleton (T1) and step-level differential runs (T2)",
         search=search,
     )
